@@ -60,8 +60,8 @@ def run(ctx):
                "divB", "butterfly", "cmp"]
     un_ops = ["neg", "negA", "double", "doubleA", "square", "squareA", "inverse", "inverseA", "legendre", "sqrt", "lex",
               "frommont", "tomont"]
-    gen_bin = ["gmul", "gadd", "gsub", "gbutterfly"]
-    gen_un = ["gneg", "gdouble", "gfrommont", "greduce"]
+    gen_bin = ["gmul", "gadd", "gsub", "gbutterfly", "gmulA", "gmulB", "gmulAA", "gaddA", "gaddB", "gaddAA", "gsubA", "gsubB"]
+    gen_un = ["gneg", "gdouble", "gfrommont", "greduce", "gnegA", "gdoubleA"]
     npairs = ctx.n(12000, 400000)
     for _ in range(npairs):
         a, b = rnd(), rnd()
